@@ -51,6 +51,17 @@ func pureArgs(mt reflect.Type) [][]reflect.Value {
 func c09Pure(c *ctx) {
 	moments := [][6]int{{2024, 2, 10, 23, 30, 0}, {2020, 5, 23, 10, 0, 0}, {2033, 12, 25, 12, 0, 0}, {1582, 10, 4, 22, 59, 59}, {2020, 1, 1, 0, 0, 0},
 		{2016, 2, 7, 12, 0, 0}, {2024, 1, 31, 8, 0, 0}, {237, 2, 11, 12, 0, 0}, {2020, 7, 20, 9, 30, 0}, {9998, 12, 31, 23, 59, 59}}
+	// days that hold a term, one hour before the term's instant (day-level and to-the-second lookups differ there)
+	for _, ty := range []int{2022, 1 + c.rng.Intn(9000)} {
+		try(func() {
+			s0, _ := safeSolar(ty, 6, 15, 12, 0, 0)
+			for i, row := range termTable(s0.GetLunar()) {
+				if len(row) == 7 && row[1].(int) == ty && row[4].(int) >= 2 && (i == 9 || i == 18) {
+					moments = append(moments, [6]int{ty, row[2].(int), row[3].(int), row[4].(int) - 1, row[5].(int), row[6].(int)})
+				}
+			}
+		})
+	}
 	for k := 0; k < c.argInt("moments", 14); k++ {
 		h, mi, se := hms(c.rng.Intn(86400))
 		moments = append(moments, [6]int{1 + c.rng.Intn(9998), 1 + c.rng.Intn(12), 1 + c.rng.Intn(28), h, mi, se})
